@@ -34,11 +34,15 @@ def run_case(tid, recs):
     cvrs = []
     # tally-pool labels as they occur in practice include falsy ones: the label "Z" stands for the integer 0
     label = {"none": None, "Z": 0}
-    unlabel = lambda v: "none" if v is None else ("Z" if (v == 0 and v is not False and not isinstance(v, str)) else str(v))
+    unlabel = lambda v: "none" if v is None else ("Z" if (v == 0 and v is not False and not isinstance(v, str))
+                                                    else str(v)[5:] if str(v).startswith("pool-") else str(v))
     for pos, r in enumerate(recs, start=1):
         # each record's votes in a contest carry a candidate only that record has, so a merge that mixes two
         # records' selections inside one contest is visible
-        kw = dict(id=r["id"], phantom=r["phantom"], pool=r["pool"], tally_pool=label.get(r["tpool"], r["tpool"]))
+        tp = label.get(r["tpool"], r["tpool"])
+        if isinstance(tp, str):
+            tp = "".join(["pool-", tp])          # equal labels, but a new string object for every record
+        kw = dict(id=r["id"], phantom=r["phantom"], pool=r["pool"], tally_pool=tp)
         if r["cons"]:
             kw["votes"] = {c: {"src": pos, f"only{pos}": 1} for c in r["cons"]}
         cvrs.append(CVR(**kw))          # a record without contests is built the way callers do: no votes argument at all
